@@ -7,6 +7,10 @@ cd "$(dirname "$0")"
 export GOFLAGS=-mod=mod GOPROXY=off GOSUMDB=off GOTOOLCHAIN=local
 for d in seeded/${1}*/; do
   id=$(basename $d); prop=${id%%-*}
+  # a seed whose failure needs a particular thread schedule is verified with the
+  # E1 check named in its meta.json (verify_with) when its own property is decided natively
+  vw=$(python3 -c "import json,sys;print(json.load(open('$d/meta.json')).get('verify_with',''))" 2>/dev/null)
+  [ -n "$vw" ] && prop=$vw
   W=/tmp/seedall-$id; rm -rf $W; cp -r /repo $W; rm -rf $W/.git
   if ! ( cd $W && git init -q . && git apply --whitespace=nowarn /verif/$d/patch.diff ) ; then echo "$id: PATCH DOES NOT APPLY"; rm -rf $W; continue; fi
   mkdir -p /tmp/seedallroot-$id && cp known_findings.json /tmp/seedallroot-$id/
